@@ -2,8 +2,9 @@ use vstd::prelude::*;
 use crate::common::traits::{Serialize, Loggable};
 use crate::error::*;
 use crate::exception::{ExceptionCode, spec_exception_value};
-use crate::types::{coil_to_u16, AddressRange, Indexed, AddressIterator};
-use crate::shims::scursor::{WriteCursor, appended};
+use crate::types::{coil_to_u16, coil_from_u16, AddressRange, Indexed, AddressIterator, BitIterator, RegisterIterator, BitIteratorDisplay, RegisterIteratorDisplay};
+use crate::shims::scursor::{WriteCursor, ReadCursor, appended};
+use crate::common::traits::Parse;
 
 // ---- wire encodings (from the protocol: 16-bit quantities are big-endian) ----
 pub open spec fn hi(v: u16) -> u8 { (v / 256) as u8 }
@@ -26,6 +27,10 @@ impl Serialize for AddressRange {
 //@fn rodbus/src/common/serialize.rs | Serialize for AddressRange::serialize | tags=C01,C03 | r10
 }
 impl Loggable for AddressRange {}
+// [C07,C20] the decode path of this type re-parses the payload defensively: no panic for any payload, any level (R5: inherent, R28)
+impl AddressRange {
+//@fn rodbus/src/common/serialize.rs | Loggable for AddressRange::log | tags=C07,C20 | inherent r28 r10 r10id=0
+}
 
 impl Serialize for crate::exception::ExceptionCode {
     open spec fn ser_pre(&self) -> bool { true }
@@ -44,6 +49,10 @@ impl Serialize for Indexed<bool> {
 //@fn rodbus/src/common/serialize.rs | Serialize for Indexed<bool>::serialize | tags=C01,C03 | r10
 }
 impl Loggable for Indexed<bool> {}
+// [C07,C20] the decode path of this type re-parses the payload defensively: no panic for any payload, any level (R5: inherent, R28)
+impl Indexed<bool> {
+//@fn rodbus/src/common/serialize.rs | Loggable for Indexed<bool>::log | tags=C07,C20 | inherent r28 r10 r10id=0
+}
 
 impl Serialize for Indexed<u16> {
     open spec fn ser_pre(&self) -> bool { true }
@@ -53,3 +62,7 @@ impl Serialize for Indexed<u16> {
 //@fn rodbus/src/common/serialize.rs | Serialize for Indexed<u16>::serialize | tags=C01,C03 | r10
 }
 impl Loggable for Indexed<u16> {}
+// [C07,C20] the decode path of this type re-parses the payload defensively: no panic for any payload, any level (R5: inherent, R28)
+impl Indexed<u16> {
+//@fn rodbus/src/common/serialize.rs | Loggable for Indexed<u16>::log | tags=C07,C20 | inherent r28 r10 r10id=0
+}
